@@ -826,6 +826,22 @@ def _instantiate_call(F, t, subst):
     import re as _re
     if t.get("gargs"):
         t["gargs"] = [subst.get(a, a) for a in t["gargs"]]
+    # a trait method of the type parameter handed over as a function value (`pairs.map(T::parse)`): the impl of the instance
+    newrefs = None
+    for a in t.get("args") or ():
+        c = a.get("c") if isinstance(a, dict) else None
+        if c and "fn" in c:
+            m2 = _re.search(r"\{<(\w+) as ([^>]+(?:<[^>]*>)?)>::(\w+)\}", c.get("ty") or "")
+            if m2 and m2.group(1) in subst:
+                r2 = _impl_index(F).get((m2.group(2), m2.group(3), subst[m2.group(1)]))
+                if r2:
+                    c = dict(c)
+                    old_path = c.get("fn_resolved") or c["fn"]
+                    c["fn_resolved"] = r2
+                    a["c"] = c
+                    newrefs = [r2 if x in (old_path, c["fn"]) else x for x in (newrefs if newrefs is not None else (t.get("fnrefs") or []))]
+    if newrefs is not None:
+        t["fnrefs"] = newrefs
     if not t.get("trait") or (t.get("resolved") and t["resolved"] in F.fns):
         return
     m = _re.match(r"^<(.+?) as ", t.get("callee_args") or "")
